@@ -114,6 +114,11 @@ class DictDecoder:
         Returns:
             An instance of the class type representing the parsed content.
         """
+        if not isinstance(data, dict):
+            raise ParserError(
+                f"Failed to bind '{data}' to {clazz.__qualname__}, expected object"
+            )
+
         if set(data.keys()) == self.context.class_type.derived_keys:
             return self.bind_derived_dataclass(data, clazz)
 
@@ -300,7 +305,13 @@ class DictDecoder:
             # Frozen models are encoded with tuples
             value = list(value)
 
-        value = converter.serialize(value)
+        try:
+            value = converter.serialize(value)
+        except TypeError:
+            raise ParserError(
+                f"Failed to bind '{value}' "
+                f"to {meta.clazz.__qualname__}.{var.name} field"
+            )
 
         # Convert value according to the field types
         return ParserUtils.parse_var(
@@ -332,7 +343,11 @@ class DictDecoder:
             # xs:anyType element, check all meta classes
             return self.bind_best_dataclass(data, meta.element_types)
 
-        assert var.clazz is not None
+        if var.clazz is None:
+            raise ParserError(
+                f"Failed to bind object with properties({list(data.keys())}) "
+                f"to {meta.clazz.__qualname__}.{var.name} field"
+            )
 
         subclasses = set(self.context.get_subclasses(var.clazz))
         if subclasses:
